@@ -155,7 +155,7 @@ Section TraceSess.
     { intros F' [[X _]|[_ [->|Cn]]] Sz'; [subst k; rewrite X in Vk; inversion Vk|left; reflexivity|].
       right. split; [exact Cn|apply can_sizes_pwf; assumption]. }
     destruct v as [|x v].
-    - destruct (sess_delete_rep H H_len S ss F key ss' SI BK E) as (F' & d & evm & TR & Rp' & GR). fold k in GR.
+    - destruct (sess_delete_rep H H_len S ss F key ss' SI BK E) as (F' & d & evm & TR & Rp' & GR & _). fold k in GR.
       destruct (delete_spec (resolve_of H PathScheme S) (ops_fuel k) F [] k (ops_fuel_ok k) Wp)
         as (d0 & n0 & ev0 & DE0 & PO).
       destruct (GR (ops_fuel k) (ops_fuel_ok k)) as (ev' & DE' & NE). rewrite DE0 in DE'. inversion DE'; subst d0 n0 ev0.
@@ -167,7 +167,7 @@ Section TraceSess.
       exists F'. split; [|split; [exact L1|exact L2]].
       split; [split; [apply FIN; [apply CP; exact Cp|exact Sz']|exact Rp']|]. split; [exact Sz'|].
       rewrite TR. eapply ti_after; [apply gpos_dec|exact T|exact EC|exact NE].
-    - destruct (sess_insert_rep H H_len S ss F key x v ss' SI BK E) as (F' & d & evm & TR & Rp' & GR). fold k in GR.
+    - destruct (sess_insert_rep H H_len S ss F key x v ss' SI BK E) as (F' & d & evm & TR & Rp' & GR & _). fold k in GR.
       destruct (insert_spec (resolve_of H PathScheme S) (ops_fuel k) F [] k (x :: v) (ops_fuel_ok k) Wp)
         as (d0 & n0 & ev0 & DE0 & PO).
       destruct (GR (ops_fuel k) (ops_fuel_ok k)) as (ev' & DE' & NE). rewrite DE0 in DE'. inversion DE'; subst d0 n0 ev0.
